@@ -1,0 +1,12 @@
+//go:build !verif
+
+package server
+
+// Empty twins of the schedule points in verif_sched_on.go (build tag verif).
+// They are inlined away: without the tag the server contains no trace of them.
+
+func (s *Server) verifSchedConn(client *Client, point string, park bool) {}
+func (s *Server) verifSched(point string)                                {}
+func (s *Server) verifSchedBG(point string)                              {}
+func (s *Server) verifLogged()                                           {}
+func (s *Server) verifFlushed()                                          {}
